@@ -788,7 +788,9 @@ class FunctionBody:
 
     def translate(self):
         info = self.info
+        self.param_names = {}
         for pname, pt, p in info['params']:
+            self.param_names[p['id']] = pname
             if pt.ref:
                 self.refvars.add(p['id'])
         body = [c for c in self.node.get('inner', []) if c.get('kind') == 'CompoundStmt']
@@ -1295,12 +1297,13 @@ class FunctionBody:
         if k in ('ParmVarDecl', 'VarDecl', 'BindingDecl'):
             if rd['id'] in self.subst:
                 return self.subst[rd['id']]
+            nm = rd.get('name') or getattr(self, 'param_names', {}).get(rd['id'], '')
             if rd['id'] in self.refvars:
-                return '(*%s)' % rd['name']
+                return '(*%s)' % nm
             decl = self.tu.by_id.get(rd['id'])
             if decl is not None and k == 'VarDecl' and self.is_global(decl):
                 return self.global_const(decl)
-            return rd['name']
+            return nm
         if k == 'EnumConstantDecl':
             et = self.ct(n)
             if et.kind != 'enum':
